@@ -18,12 +18,66 @@ META = {
 }
 
 
+HOSTS3 = [   # multi-line containers whose elements sit on their own lines at various indentation widths / characters
+    'x = [\n    p,\n    q,\n]\n', 'f(\n    p,\n    q,\n)\n', 'x = {\n        p: 1,\n        q: 2,\n}\n', 'class C(\n  p,\n  q,\n): pass\n', 'x = (\n\tp,\n\tq,\n)\n',
+    'def f(\n        p,\n        q=1,\n): pass\n', 'with (\n    p as a,\n    q as b,\n): pass\n', 'from m import (\n    p,\n    q,\n)\n', 'match v:\n    case [\n        p,\n        q,\n    ]: pass\n',
+    'if 1:\n    x = [\n        p,\n        q,\n    ]\n', 'x = {\n  p,\n  q,\n}\ndel (\n      p,\n      q,\n)\n',
+]
+CODES3 = ['[\n        a,\n        (b,\n  c),\n]', '(a,\n            b,\n c)', 'f(\n            x,\n  y)', '[\n\ta,\n\t\t(b,\n c)]', 'a, (b,\n  c), d', '{\n      k: v,\n   **w,\n          j: u}',
+          '[\n        é,\n        ("日本",\n  ü),\n]', 'g(a)(\n        b)(\n  c)']
+OPS3 = ['replace', 'put', 'put_slice', 'put_slice_one', 'setslice', 'insert', 'append', 'extend', 'prepend', 'prextend', 'view_insert', 'view_append']
+
+
+def run_table3(ctx, FST):
+    """Deterministic part (complete in both tiers): every element of every HOSTS3 container x slice/single entry points x irregularly indented
+    multi-line codes x the three code forms; the oracle is the same as for W1."""
+    import random
+    from .. import edits
+    i = 0
+    for hi, src in enumerate(HOSTS3):
+        try:
+            n = len(edits.candidates(FST(src, 'exec').a))
+        except Exception:
+            continue
+        for ci in range(n):
+            for op in OPS3:
+                for code in CODES3 + ([c + '#slice' for c in CODES3 if c[0] in '[(' or ',' in c] if op in ('put_slice', 'setslice', 'extend', 'prextend') else []):
+                    as_slice = code.endswith('#slice')
+                    code = code[:-6] if as_slice else code
+                    for form in ('src', 'ast', 'fst'):
+                        i += 1
+                        if not ctx.mine(i):
+                            continue
+                        if ctx.out_of_time():
+                            return
+                        rnd = random.Random(i)
+                        root = FST(src, 'exec')
+                        step = edits.gen_step(rnd, root, {}, None, cand=ci, op=op, code=code, form=form)
+                        if step is None or step['kind'] not in ('expr', 'expr1', 'dictval', 'starred', 'withitem', 'alias_from', 'pattern', 'arg', 'keyword', 'target'):
+                            continue
+                        step['opts'] = {'norm': True}
+                        if as_slice:
+                            step['as_slice'] = True
+                        before = root.src
+                        try:
+                            edits.apply_step(root, step, FST)
+                        except Exception:
+                            ctx.count('table3_step_raised')
+                            continue
+                        ctx.count('table3_steps')
+                        ctx.evaluations += 1
+                        if root.src != before:
+                            ctx.cell(step['ttype'], step['field'], step['op'], step['form'])
+                        check_after(ctx, FST, root, step, before)
+
+
 def run(ctx):
     from fst import FST
     from .. import corpus, edits
     from . import c01
     seq = 0
     weights = {}
+    run_table3(ctx, FST)
     while not ctx.out_of_time():
         seq += 1
         mode = ctx.rnd.random()
